@@ -21,6 +21,11 @@ ANY_DEFINED_BY = [
  ("F90-mandatory", "M DEFINITIONS ::= BEGIN T ::= SEQUENCE { type INTEGER, value ANY DEFINED BY type } END"),
  ("F90-tagged", "M DEFINITIONS ::= BEGIN T ::= SEQUENCE { type INTEGER, value [0] ANY DEFINED BY type, plain ANY OPTIONAL } END"),
  ("F90-set", "M DEFINITIONS ::= BEGIN T ::= SET { id OBJECT IDENTIFIER, v [1] EXPLICIT ANY DEFINED BY id } U ::= ANY END"),
+ # character string values with embedded quotation marks (printed doubled), incl. the string that is just one quotation mark
+ ("cstring-quotes", 'M DEFINITIONS ::= BEGIN A ::= IA5String (FROM("a" | """" | "z")) B ::= SEQUENCE { s IA5String DEFAULT """", t UTF8String DEFAULT "a""b", '
+                    'u IA5String DEFAULT """""" } q IA5String ::= """" r IA5String ::= "x""" w IA5String ::= """y" C ::= IA5String (""""|"ab""cd") END'),
+ ("value-notation", "M DEFINITIONS ::= BEGIN i INTEGER ::= -5 b BOOLEAN ::= TRUE o OCTET STRING ::= 'AB01'H s BIT STRING ::= '0101'B "
+                    "id OBJECT IDENTIFIER ::= { 1 2 840 } T ::= INTEGER (i..10) U ::= SEQUENCE { a INTEGER DEFAULT i, f BOOLEAN DEFAULT b } END"),
 ]
 
 OPTSETS = [("compound", ["-fcompound-names"]), ("default", []), ("wide-noper", ["-fwide-types", "-no-gen-PER", "-fcompound-names"]),
